@@ -7,7 +7,7 @@ import tempfile
 
 from hypothesis import strategies as st
 
-from .. import cc_oracle, gencc, irsem
+from .. import cc_oracle, gencc, irsem, irsem_selfcheck
 from ..core import Discard, Stats, hyp_search, subseed
 from ..irpasses import innermost_ppci_frame
 
@@ -149,6 +149,7 @@ def _worker(arg):
 
 
 def run(ctx):
+    ctx.extra["irsem_selfcheck"] = irsem_selfcheck.selfcheck("quick")  # the oracle validates itself first (cached)
     n = ctx.scale(128, 32000)
     ctx.pmap(_worker, [(subseed(ctx.seed, PID, w), n // 16) for w in range(16)])
     ctx.extra["excluded_by_option"] = dict(OPTIONS.excluded)
